@@ -222,3 +222,39 @@ func (g *UniGen) Respell(r *rng.R, nfkd string, num, den int) (string, int) {
 	}
 	return sb.String(), changed
 }
+
+// Packed returns strings that together contain every code point of list l
+// exactly once, per code points per string, separated by the starter sep so
+// that neighbours cannot interact. Marks are preceded by a base letter.
+func (g *UniGen) Packed(l []rune, per int, sep rune) []string {
+	var out []string
+	for i := 0; i < len(l); i += per {
+		b := &builder{g: g}
+		for j := i; j < i+per && j < len(l); j++ {
+			if g.u.ccc[l[j]] != 0 {
+				b.add('o')
+			}
+			b.add(l[j])
+			b.add(sep)
+		}
+		out = append(out, b.String())
+	}
+	return out
+}
+
+// AllAssigned returns every assigned code point except controls, format
+// characters and private use.
+func (g *UniGen) AllAssigned() []rune {
+	var out []rune
+	for cp := rune(0x20); cp < 0x110000; cp++ {
+		if !g.u.assigned[cp] {
+			continue
+		}
+		switch g.u.cat[cp] {
+		case "Co", "Cc", "Cf":
+			continue
+		}
+		out = append(out, cp)
+	}
+	return out
+}
